@@ -22,5 +22,17 @@ CHECKS = [
      "text": "TLC validates recorded executions of class half: all 2^16 patterns for classes/negation/isFinite/isNegative/fpclassify agreement/text round trip; round(n) against the RoundRel relation for n in 0..12 and large n; compound arithmetic with half and float right-hand sides over boundary-class operand sets against 'widen, one correctly rounded binary32 operation computed in exact arithmetic by the spec, narrow'; numeric_limits/HALF_* against extremal elements; halfFunction tables as a Build/Lookup state machine probed at all 2^16 patterns. MCHalf checks class partition, extremality of limits and satisfiability/functionality of RoundRel exhaustively.",
      "note": "Arithmetic operand pairs are a boundary-class product plus seeded random pairs, not all 2^32 pairs. Decimal correctness of printed text is not decided (round trip only). NaN sign/payload of invalid operations is left to the hardware.",
      "technique": "TLA+ spec of half semantics with exact dyadic arithmetic; TLC trace validation of recorded API calls; TLC bounded model run of the definitions"},
+    {"id": "C13",
+     "text": "Box/Interval as a TLA+ state machine over a coordinate lattice with symbolic extremes; observers defined from the point set Pts(b). TLC explores all histories of makeEmpty/makeInfinite/extendBy/assign to a bounded depth (minimality: box = hull of everything added; set semantics; symmetry). Conformance: every (state, action/query, argument) over the lattice - including inverted min/max pairs - is executed on the real Interval, Box<Vec2> (exhaustively), Box<Vec3>, Box<Vec4> (seeded samples) for 5 element types and validated by TLC; TLC-generated histories are replayed on real objects with the spec threading its own state; transform/affineTransform in all four overloads (result pre-filled with empty / unrelated / infinite) are validated against the exact tight bound of the corner images.",
+     "note": "Lattice scope {LOW,-2,0,2,4,MAX}; D=3,4 sampled. extendBy(box) with inverted non-canonical arguments, clip on empty boxes and size/center at the extremes are outside the judged scope. Two genuine defects were found and fixed in /repo (see known_findings.json).",
+     "technique": "TLC model checking of a TLA+ Box state machine + TLC trace validation of every lattice transition executed on the real templates + replay of TLC-generated histories"},
+    {"id": "C14",
+     "text": "Exact rational definition of ray/line-box intersection (finite candidate-parameter set) in TLA+, parametric in the arithmetic: TLC checks on an integer lattice that the candidate-set definition equals a literal search over a grid of parameters and equals the slab method; every recorded call of intersects(box,ray), intersects(box,ray,ip) and findEntryAndExitPoints (float and double) on a seeded lattice sample, on rays constructed to graze edges/corners at non-integer parameters, and on inputs with zero/denormal/huge direction components is validated by TLC: boolean exact, reported points in the box, on the surface, and on the ray within a rounding bound.",
+     "note": "Lattice is sampled (10^5 quick, 10^6 thorough), not enumerated. Extreme-direction records outside the judged scope (a deciding plane parameter not representable; origin exactly on a face with a denormal component) are counted as skipped, see DESIGN.md.",
+     "technique": "TLA+ exact-arithmetic definition + TLC refinement check (definition vs slab algorithm) + TLC trace validation of recorded calls"},
+    {"id": "C18",
+     "text": "48-bit LCG state machine in TLA+ (definition via big-integer arithmetic, refinement to a limb-wise product and to the code's mantissa packing checked by TLC from boundary states under all op sequences); recorded interleavings of srand48/lrand48/drand48/nrand48/erand48 are validated step by step with the hidden static state threaded by the spec; the same spec validates glibc's functions (the spec states POSIX, not Imath); Rand32/Rand48 objects and the sphere/gauss samplers are judged for ranges and for determinism against twin objects; TLC-generated behaviours from boundary states are replayed into the code.",
+     "note": "2^48 states are sampled (boundary + seeded random). Seeding formulas of Rand32/Rand48 are not pinned (property: pure function of the seed).",
+     "technique": "TLA+ generator state machine + TLC trace validation of recorded call interleavings (also of glibc) + replay of TLC-generated behaviours"},
 ]
 NOT_APPLICABLE = [{"property_id": p, "reason": "check under construction in this round (planned in DESIGN.md section 4); not yet claimed"} for p in ALL if p not in [c["id"] for c in CHECKS]]
